@@ -127,6 +127,7 @@ package scipipe
 //@ extern fmt.Sprintf(format, a) (res)
 //@ extern (*log.Logger).Println(l, v)
 //@ extern (*log.Logger).Printf(l, format, v)
+//@   deterministic by-contract logging does not influence results
 //@ extern errors.New(text) (res)
 //@   ensures nonnil: res != nil
 //@ iface error.Error() (res)
@@ -347,6 +348,7 @@ package scipipe
 //@ define newRename(a string, b string) bool = effRenamed[a][b] && !old(effRenamed)[a][b]
 
 //@ extern strings.Replace(s, old, new, n) (res)
+//@   deterministic by-contract pure library function
 //@   ensures first: n == 1 ==> res == replaceFirst(s, old, new)
 //@   ensures all: n < 0 ==> res == replaceAll(s, old, new)
 //@ iface fs.FileInfo.IsDir() (res)
@@ -587,8 +589,8 @@ package scipipe
 //@ ghost func foldMods(x string, ms seq[string], n int) string
 
 // Assumed facts about Go's regexp for the four pattern literals of applyPathModifiers (validated by differential tests).
-//@ axiom re.subst.groups: forall a string, b string :: fullMatch(a, "[^/]+") && fullMatch(b, "[^/]*") ==> reGroup("s\\/([^\\/]+)\\/([^\\/]*)\\/", "s/" + a + "/" + b + "/", 1) == a && reGroup("s\\/([^\\/]+)\\/([^\\/]*)\\/", "s/" + a + "/" + b + "/", 2) == b
-//@ axiom re.trim.group: forall s string :: !contains(s, "\n") ==> reGroup("%(.*)", "%" + s, 1) == s
+//@ axiom re.subst.groups: forall m string :: isSubstMod(m) ==> reGroup("s\\/([^\\/]+)\\/([^\\/]*)\\/", m, 1) == substA(m) && reGroup("s\\/([^\\/]+)\\/([^\\/]*)\\/", m, 2) == substB(m)
+//@ axiom re.trim.group: forall m string :: fullMatch(m, "%[^\n]*") ==> reGroup("%(.*)", m, 1) == substr(m, 1, len(m) - 1)
 //@ axiom re.basename: forall x string :: !contains(x, "\n") ==> reReplaceAll(".*\\/", x, "") == afterLastSlash(x)
 //@ axiom re.dirname: forall x string :: !contains(x, "\n") ==> reReplaceAll("\\/[^\\/]*$", x, "") == beforeLastSlash(x)
 // Meaning of the two spec functions (documented semantics of basename / dirname).
@@ -601,13 +603,15 @@ package scipipe
 //@ axiom foldMods.zero: forall x string, ms seq[string] :: foldMods(x, ms, 0) == x
 //@ axiom foldMods.step: forall x string, ms seq[string], n int :: n > 0 ==> foldMods(x, ms, n) == modstep(foldMods(x, ms, n - 1), ms[n - 1])
 
+//@ extern (*regexp.Regexp).MatchString(re, s) (res)
+//@   deterministic by-contract pure library function
 //@ extern (*regexp.Regexp).FindStringSubmatch(re, s) (res)
 //@   deterministic by-contract pure library function
 //@   ensures groups: forall i int :: 0 <= i && i < len(res) ==> res[i] == reGroup(regexLit(re), s, i)
 
 // The documented modifiers (docs/writing_workflows.md): basename, dirname, %SUFFIX, s/SEARCH/REPLACE/
 //@ define isSubstMod(m string) bool = fullMatch(m, "s/[^/%\n]+/[^/%\n]*/")
-//@ define isTrimMod(m string) bool = hasPrefix(m, "%") && !contains(m, "\n") && !matches(m, "s\\/([^\\/]+)\\/([^\\/]*)\\/") && m != "%basename" && m != "%dirname"
+//@ define isTrimMod(m string) bool = fullMatch(m, "%[^\n]*") && !matches(m, "s\\/([^\\/]+)\\/([^\\/]*)\\/")
 //@ define docMod(m string) bool = m == "basename" || m == "dirname" || isTrimMod(m) || isSubstMod(m)
 //@ define substA(m string) string = substr(m, 2, indexOf(substr(m, 2, len(m) - 2), "/"))
 //@ define substB(m string) string = substr(m, 3 + len(substA(m)), len(m) - 4 - len(substA(m)))
